@@ -145,6 +145,27 @@ def grid_ops(tabs):
         rows.append(("b64.dec", {"j": j, "ol": 3}))
         rows.append(("b64.dec", {"j": j, "ol": 2}))
     g["C08"] = rows
+    # C07: chains of the public constructors without OpenSSL/zlib stages: every composition of lengths 0..5 into feeds
+    from props import c07
+    import random as _random
+    r7 = _random.Random(7)
+    rows = []
+    shapes = [sh for sh in c07.SHAPES_SMALL if not c07.has_xform(sh)]
+    for sh in shapes:
+        for n in range(0, 6):
+            for data in (bytes(r7.randrange(256) for _ in range(n)), c07.ref_enc(bytes(r7.randrange(256) for _ in range(n)))[:n].ljust(n, b"A")):
+                for parts in c07.compositions(n):
+                    rows.append(("io.run", {"chain": sh, "feeds": c07.split(data, parts)}))
+        rows.append(("io.run", {"chain": sh, "feeds": ["", ""]}))
+    d10 = bytes(range(65, 75))
+    for w in (lambda x: x, lambda x: ["b64enc", x], lambda x: ["b64dec", x], lambda x: ["plex", True, [["malloc"], x]], lambda x: ["plex", False, [["malloc"], x]],
+              lambda x: ["plex", False, [x, x]], lambda x: ["b64enc", ["plex", False, [["b64dec", x], ["buffer", 10]]]]):
+        for fa in (0, 1, 2, 3, None):
+            ch = w(["probe", fa])
+            dd = c07.ref_enc(d10) if ch[0] == "b64dec" else d10
+            rows.append(("io.run", {"chain": ch, "feeds": [bytes([b]).hex() for b in dd]}))
+            rows.append(("io.run", {"chain": ch, "feeds": [dd.hex()]}))
+    g["C07"] = rows
     # C17: configuration-context histories of length <= 2 after two contexts were created
     from props import c17
     al = c17.alphabet(tabs["cfg_err_base"], 2)
